@@ -123,17 +123,36 @@ def parseCtor (s : String) (sizeOf : Option Nat) : Option Ctor :=
     | ["wl", n] => n.toNat?.map Ctor.withLen
     | _ => none
 
-/-- nanoseconds a channel of 8 bit/s is busy per bit -/
-def nsPerBit : Nat := 125000000
+/-- what the implementation reported for `len`: busy time (ns, `none` = panicked) at a bitrate -/
+structure Busy where
+  ns : Option Nat
+  bitrate : Nat
+
+/-- `calculate_busy` against the exact rational `bits / bitrate` seconds: ±1 ns for the rounding to
+    whole nanoseconds plus a relative 2^-48 for the f64 arithmetic of the implementation
+    (`usize as f64`, one division, `Duration::from_secs_f64`: a few ulps of 2^-53) -/
+def busyOk (bits bitrate ns : Nat) : Bool :=
+  if bitrate = 0 then ns = 0
+  else
+    let exact := bits * 1000000000          -- = exact ns * bitrate
+    let got := ns * bitrate
+    let tol := bitrate * (1 + ns / 281474976710656)
+    got ≤ exact + tol && exact ≤ got + tol
+
+/-- the bit count a busy time stands for (only used to report a disagreement) -/
+def impliedBits (b : Busy) : Nat :=
+  match b.ns with
+  | some ns => ns * b.bitrate / 1000000000
+  | none => 0
 
 /-- operation and the implementation's answer (as an `Out`) -/
-def parseLine (line : String) : Option (Op × Out × Nat × Nat) :=
+def parseLine (line : String) : Option (Op × Out × Nat × Nat × Option Busy) :=
   let (lhs, rhs) := splitArrow line
   let l := words lhs
   let r := words rhs
   match kvNat r "i", kvNat r "d", r.head? with
   | some i, some d, some ans =>
-    let fin (op : Op) (o : Option Out) : Option (Op × Out × Nat × Nat) := o.map fun o => (op, o, i, d)
+    let fin (op : Op) (o : Option Out) : Option (Op × Out × Nat × Nat × Option Busy) := o.map fun o => (op, o, i, d, none)
     let simple (okOut : Out) : Option Out :=
       if ans = "ok" then some okOut else if ans = "noslot" then some .noSlot else none
     match l with
@@ -141,10 +160,20 @@ def parseLine (line : String) : Option (Op × Out × Nat × Nat) :=
       match id.toNat?, kind.toNat? with
       | some id, some kind => fin (.new tag id kind) (simple .done)
       | _, _ => none
-    | ["set", tag, c, ty, v] =>
+    | "set" :: tag :: c :: ty :: v :: _ =>
+      -- a trailing `lay=<k>` names the in-memory layout the harness built the value in; the
+      -- abstract value (and so the model) does not depend on it
       match parseCtor c (kvNat r "size" |>.orElse fun _ => some 0), parseVal v with
       | some c, some v => fin (.set tag c ⟨ty⟩ v) (simple .done)
       | _, _ => none
+    | "len" :: tag :: rest =>
+      if ans = "noslot" then fin (.length tag) (some .noSlot)
+      else match kvNat r "len", kv r "busy" with
+        | some n, some busy =>
+          let br := (kvNat rest "br").getD 8
+          -- the bit count is filled in by `runCase` once the model's answer is known
+          some (.length tag, .length n 0, i, d, some ⟨busy.toNat?, br⟩)
+        | _, _ => none
     | [op, src, dst] =>
       if op = "clone" ∨ op = "tryclone" then
         let o : Option Out :=
@@ -178,13 +207,6 @@ def parseLine (line : String) : Option (Op × Out × Nat × Nat) :=
           else if ans = "noslot" then some .noSlot else none
         fin (.canCast src ⟨dst⟩) o
       else none
-    | ["len", tag] =>
-      if ans = "noslot" then fin (.length tag) (some .noSlot)
-      else match kvNat r "len", kvNat r "busy" with
-        | some n, some busy =>
-          -- busy time is reported in ns for a channel of 8 bit/s; a non-multiple cannot be a bit count
-          if busy % nsPerBit = 0 then fin (.length tag) (some (.length n (busy / nsPerBit))) else none
-        | _, _ => none
     | ["drop", tag] => fin (.drop tag) (simple .done)
     | _ => none
   | _, _, _ => none
@@ -197,6 +219,9 @@ structure Stats where
   clones : Nat := 0        -- clones that duplicated a body
   refused : Nat := 0       -- clone of a non-clonable body
   overwrites : Nat := 0    -- set on a message that already had a body
+  huge : Nat := 0          -- `len` on a message of at least 2^29 bytes (more than u32::MAX bits)
+  layouts : Nat := 0       -- values built in a non-canonical in-memory layout
+  wrapped : Nat := 0       -- … of which contain a deque wrapped around the end of its ring buffer
 
 def hasBody (st : MBSpec.State) (tag : String) : Bool :=
   match lookup tag st.slots with
@@ -232,9 +257,23 @@ def runCase (c : Case) : String := Id.run do
     i := i + 1
     match parseLine line with
     | none => return s!"fail {id} op={i} kind=badline detail={line}"
-    | some (op, obs, ci, cd) =>
+    | some (op, obs0, ci, cd, busy) =>
       let (ms', mo) := MB.step ms op
       let (ss', so) := MBSpec.step ss op
+      -- `len`: the busy time stands for the specification's bit count iff it is the exact
+      -- rational bits / bitrate up to rounding; otherwise for the bit count it implies
+      let obs : Out :=
+        match obs0, busy, so with
+        | .length n _, some b, .length _ sbits =>
+          match b.ns with
+          | some ns => if busyOk sbits b.bitrate ns then .length n sbits else .length n (impliedBits b)
+          | none => .panic
+        | o, _, _ => o
+      if let .length n _ := so then
+        if n ≥ 536870912 then st := { st with huge := st.huge + 1 }
+      if let (.set .., .done) := (op, so) then
+        if (kvNat (words (splitArrow line).2) "wr").getD 0 > 0 then st := { st with wrapped := st.wrapped + 1 }
+        if (kvNat (words (splitArrow line).1) "lay").getD 0 > 0 then st := { st with layouts := st.layouts + 1 }
       -- statistics for the non-triviality rule
       match op, so with
       | .cast .., .castOk .. => st := { st with castOk := st.castOk + 1 }
@@ -258,7 +297,7 @@ def runCase (c : Case) : String := Id.run do
       ms := ms'
       ss := ss'
   let nt := st.castOk > 0 && st.castErr > 0 && st.clones > 0 && st.readOk > 0 && st.readNone > 0
-  return s!"ok {id} nt={if nt then 1 else 0} ops={i} castok={st.castOk} casterr={st.castErr} readok={st.readOk} readnone={st.readNone} clones={st.clones} refused={st.refused} overwrites={st.overwrites}"
+  return s!"ok {id} nt={if nt then 1 else 0} ops={i} castok={st.castOk} casterr={st.castErr} readok={st.readOk} readnone={st.readNone} clones={st.clones} refused={st.refused} overwrites={st.overwrites} huge={st.huge} layouts={st.layouts} wrapped={st.wrapped}"
 
 def main (stdin : IO.FS.Stream) : IO Unit := do
   let cases ← readCases stdin
